@@ -52,7 +52,11 @@ def depth1(tp, tq, with_x):
     rls = [[1], [0, [2, 3]], [[1, 2]], [[1, 6], [3, 4]], [[3, 4], [1, 6]], [[0, 1], [1, 2]], [-1, 1], [[-2, 0]],
            [[2, 1]], [0, 0]]
     if with_x:
-        rls += [[X_], [[X_, ('lit', 3)]], [[('lit', 0), X_]]]
+        rls += [[X_], [[X_, ('lit', 3)]], [[('lit', 0), X_]],
+                # both bounds are fields
+                [[X_, Q_]], [[Q_, X_]], [[X_, P_], 0],
+                # both bounds are compound expressions (they reach the range constructor as built expressions)
+                [[('bin', '+', X_, ('lit', 1)), ('bin', '+', Q_, ('lit', 1))]], [[('bin', '-', Q_, ('lit', 1)), ('bin', '+', X_, ('lit', 2))]]]
     for rl in rls:
         out.append(('expr', ('in', P_, rl)))
         out.append(('pyin', P_, rl))
